@@ -101,7 +101,8 @@ def run(idx, rep, tier):
                 in_else = any(isinstance(p, ast.If) and k in df.names_in(p.test) for p in parents(c, fi.node))
                 if not in_else:
                     continue
-                in_zero_branch = any(isinstance(p, ast.If) and nospace(p.test) == f"{k}==0" and contains(p.body, c) for p in parents(c, fi.node))
+                conds = df.branch_conditions(c, fi.node)
+                in_zero_branch = any(nospace(t) in (f"{k}==0", f"0=={k}") and pol for t, pol in conds) or any(nospace(t) == k and not pol for t, pol in conds)
                 want = f"{a}.shape[0]" if in_zero_branch else f"{a}.shape[0]-abs({k})"
                 ok = shp == want
                 rep.decide(ok, "diag-length", f"{construct}:{'k=0' if in_zero_branch else 'k!=0'}", f"builds a vector of length {nospace(c.args[0].elts[0])}" + ("" if ok else f"; required {want}"),
@@ -312,11 +313,12 @@ def auto_selection(idx, rep, rule):
     if branch is None:
         rep.undecided("auto-selection", rule.role, "no if statement")
         return
-    test = branch.test
+    test, pol = df.normalise_test(branch.test)
     if isinstance(test, ast.Name) and len(asg.get(test.id, [])) == 1:
-        test = asg[test.id][0][0]
-    made_true = [nospace(c.func) for st in branch.body for c in ast.walk(st) if isinstance(c, ast.Call) and nospace(c.func) in ("Exact", "Hutch", "HutchPP")]
-    made_false = [nospace(c.func) for st in branch.orelse for c in ast.walk(st) if isinstance(c, ast.Call) and nospace(c.func) in ("Exact", "Hutch", "HutchPP")]
+        test, pol = df.normalise_test(asg[test.id][0][0], pol)
+    body_t, body_f = (branch.body, branch.orelse) if pol else (branch.orelse, branch.body)
+    made_true = [nospace(c.func) for st in body_t for c in ast.walk(st) if isinstance(c, ast.Call) and nospace(c.func) in ("Exact", "Hutch", "HutchPP")]
+    made_false = [nospace(c.func) for st in body_f for c in ast.walk(st) if isinstance(c, ast.Call) and nospace(c.func) in ("Exact", "Hutch", "HutchPP")]
     if not (isinstance(test, ast.Compare) and len(test.ops) == 1):
         rep.undecided("auto-selection", rule.role, f"selection test `{ast.unparse(test)}` is not a single comparison")
         return
